@@ -33,10 +33,19 @@ def on_miss_fn(k):
     return ('m', k)
 
 
+class LoaderFailed(Exception):
+    pass
+
+
+def on_miss_raises(k):
+    raise LoaderFailed(k)
+
+
 def make_cache(cfg):
     cu = cachemod()
     cls = getattr(cu, cfg['class'])
-    c = cls(max_size=cfg['max_size'], on_miss=on_miss_fn if cfg['on_miss'] else None)
+    om = cfg['on_miss']
+    c = cls(max_size=cfg['max_size'], on_miss=on_miss_raises if om == 'raise' else on_miss_fn if om else None)
     for k, v in cfg['prefill']:
         c[k] = v
     return c
@@ -54,6 +63,12 @@ def apply(c, op):
             c[op[1]] = op[2]; return ('ok', None)
         if name == 'getitem':
             return ('ok', c[op[1]])
+        if name == 'bigupdate':
+            return ('ok', c.update({('k', i): i for i in range(op[1])}))
+        if name == 'bigupdate_pairs':
+            return ('ok', c.update([(('k', i), i) for i in range(op[1])]))
+        if name == 'getu':
+            return ('ok', c[[0]])           # an unhashable key: TypeError, raised while the lock is held
         if name == 'get':
             return ('ok', c.get(op[1], 'D'))
         if name == 'setdefault':
@@ -86,15 +101,19 @@ def apply(c, op):
 def probe(c, max_size):
     try:
         old = list(dict.keys(c))
-        gone = []
+        gone, left = [], list(old)
         for i in range(max_size + 1):
             c[('probe', i)] = i
             if len(c) > max_size:
                 return ('over capacity', len(c))
-            for k in old:
-                if k not in gone and not dict.__contains__(c, k):
+            still = []
+            for k in left:
+                if dict.__contains__(c, k):
+                    still.append(k)
+                else:
                     gone.append(k)
-            if len(gone) == len(old):
+            left = still
+            if not left:
                 break
         return tuple(gone)
     except Exception as e:
@@ -107,6 +126,7 @@ def ring_status(c):
     ll = getattr(c, '_link_lookup', None)
     if a is None or ll is None:
         return None
+    RING_LIMIT = max(64, getattr(c, 'max_size', 0) + 8)
     fwd, link, n = [], a[1], 0
     while link is not a and n < RING_LIMIT:
         fwd.append((link[2], link[3])); link = link[1]; n += 1
@@ -138,7 +158,7 @@ def finalize(cfg, c, results):
         for r in thread_res:
             if r[0] == 'ok' and isinstance(r[1], CopyResult):
                 cp = r[1].obj
-                r = ('ok', ('copy', type(cp).__name__, tuple(sorted(dict.items(cp))), ring_status(cp),
+                r = ('ok', ('copy', type(cp).__name__, tuple(sorted(dict.items(cp), key=repr)), ring_status(cp),
                             probe(cp, cfg['max_size'])))
             tr.append(r)
         res.append(tuple(tr))
@@ -148,7 +168,7 @@ def finalize(cfg, c, results):
         lock_free = 'held by thread %r' % (lock.owner,)
         lock.owner, lock.count = None, 0        # so that the post-mortem probes below can run
     status = ring_status(c)
-    final = tuple(sorted(dict.items(c)))
+    final = tuple(sorted(dict.items(c), key=repr))
     n = len(c)
     order = probe(c, cfg['max_size'])
     return {'results': tuple(res), 'final': final, 'len': n, 'eviction_order': order,
@@ -239,8 +259,8 @@ def alphabet(cfg, reduced=False, quick=False):
                 ('pop', 'a'), ('len',)]
     ops = [('set', 'c', 2), ('set', 'a', 5), ('getitem', 'a'), ('getitem', 'c'), ('get', 'a'), ('get', 'c'),
            ('setdefault', 'c', 7), ('setdefault', 'a', 7), ('del', 'a'), ('pop', 'a'), ('popitem',),
-           ('update', (('c', 3),)), ('update', (('a', 8), ('c', 4))), ('updatekw', (('c', 9),), (('a', 7),)), ('clear',), ('eq', tuple(sorted(full.items()))), ('len',), ('in', 'a'),
-           ('in', 'c'), ('copy',)]
+           ('update', (('c', 3),)), ('update', (('a', 8), ('c', 4))), ('updatekw', (('c', 9),), (('a', 7),)), ('clear',), ('eq', tuple(sorted(full.items(), key=repr))), ('len',), ('in', 'a'),
+           ('in', 'c'), ('copy',), ('getu',)]
     if ms >= 2:
         ops += [('getitem', 'b'), ('set', 'b', 6), ('pop', 'b')]
     if quick:   # near-duplicates of other entries (same code path on another key) are left to the thorough tier
@@ -257,6 +277,24 @@ def configs(tier):
         for ms, pre in starts:
             for om in (False, True):
                 out.append({'class': cls, 'max_size': ms, 'on_miss': om, 'prefill': pre})
+        out.append({'class': cls, 'max_size': 2, 'on_miss': 'raise', 'prefill': starts[0][1]})    # a loader that raises
+    return out
+
+
+BIG_N = 600
+
+
+def big_programs(tier):
+    """Bulk operations far beyond the small alphabets (600 items), explored at *lock granularity* (scheduling points
+    only before an acquire and after a release): whatever a bulk update does between its lock operations, other
+    threads must see it as one step."""
+    out = []
+    for cls in ('LRI', 'LRU'):
+        cfg = {'class': cls, 'max_size': 1000, 'on_miss': False, 'prefill': (('a', 0), ('b', 1))}
+        for big in (('bigupdate', BIG_N), ('bigupdate_pairs', BIG_N)):
+            for other in (('len',), ('in', ('k', BIG_N - 1)), ('getitem', 'a'), ('set', 'c', 2), ('pop', ('k', 0)),
+                          ('eq', (('a', 0), ('b', 1)))):
+                out.append((cfg, ((big,), (other,)), 2))
     return out
 
 
@@ -344,6 +382,7 @@ def schedules_factory(cfg, program):
 def run(ctx):
     cachemod()
     tasks = [(cfg, prog, bound, True) for cfg, prog, bound in programs(ctx.tier)]
+    tasks += [(cfg, prog, bound, 'locks') for cfg, prog, bound in big_programs(ctx.tier)]
     ctx.rng.shuffle(tasks)
     results = core.pmap(explore_program, tasks, chunksize=4)
     cov = ctx.coverage
